@@ -34,6 +34,13 @@ def ecsMask4 : Nat := Facts.ecs_mask4
 def ecsMask6 : Nat := Facts.ecs_mask6
 def ecsKeep4 : Nat := Facts.ecs_truncated4
 def ecsKeep6 : Nat := Facts.ecs_truncated6
+/-- `length4 = 2 + 1 + 1 + truncated4` (FAMILY + SOURCE PREFIX-LENGTH + SCOPE PREFIX-LENGTH + address); tied to the
+    source by translation (`Lemmas/TranslatedC12.lean`) -/
+def ecsLen4 : Nat := 4 + ecsKeep4
+def ecsLen6 : Nat := 4 + ecsKeep6
+/-- `family4` / `family6` (IANA address family numbers) -/
+def ecsFamily4 : Nat := 1
+def ecsFamily6 : Nat := 2
 
 /-- mask the address to `bits` leading bits (`addr.Prefix(bits).Addr()`) -/
 def maskBytes (b : Bytes) (bits : Nat) : Bytes :=
@@ -48,16 +55,19 @@ def maskBytes (b : Bytes) (bits : Nat) : Bytes :=
 /-- `makeEdns0ClientSubnetReqOpt`: OPTION-CODE 8, OPTION-LENGTH, FAMILY, SOURCE PREFIX-LENGTH, SCOPE 0, address prefix. -/
 def makeECS (a : Addr) : Option Bytes :=
   match a.unmap with
-  | .v4 b => some (enc16 8 ++ enc16 (4 + ecsKeep4) ++ enc16 1 ++ [UInt8.ofNat ecsMask4, 0] ++ (maskBytes b ecsMask4).take ecsKeep4)
-  | .v6 b => some (enc16 8 ++ enc16 (4 + ecsKeep6) ++ enc16 2 ++ [UInt8.ofNat ecsMask6, 0] ++ (maskBytes b ecsMask6).take ecsKeep6)
+  | .v4 b => some (enc16 8 ++ enc16 ecsLen4 ++ enc16 ecsFamily4 ++ [UInt8.ofNat ecsMask4, 0] ++ (maskBytes b ecsMask4).take ecsKeep4)
+  | .v6 b => some (enc16 8 ++ enc16 ecsLen6 ++ enc16 ecsFamily6 ++ [UInt8.ofNat ecsMask6, 0] ++ (maskBytes b ecsMask6).take ecsKeep6)
   | .none => none
 
 /-! ### EDNS0 helpers (utils.go) -/
 def udpSize : Nat := Facts.udpSize
 
+/-- `if udpSize < 512 { udpSize = 512 }` of `newEDNS0` (tied to the source by translation) -/
+@[simp] def ednsSize (size : Nat) : Nat := if size < 512 then 512 else size
+
 /-- `newEDNS0(udpSize)`: root owner, class = max 512 size, TTL 0, no options. -/
 def newEDNS0 (size : Nat) (data : Bytes) : Resource :=
-  ⟨[], typeOPT, if size < 512 then 512 else size, 0, .raw data⟩
+  ⟨[], typeOPT, ednsSize size, 0, .raw data⟩
 
 /-- `addOrReplaceOpt` -/
 def addOrReplaceOpt (m : Msg) : Msg :=
@@ -142,9 +152,13 @@ def makeEmptyRespM (m : Msg) (rcode : Nat) : Msg :=
 def makeEmptyResp (q : Question) (rcode : Nat) : Msg :=
   { hdr := { emptyHdr with rcode := rcode }, questions := [q], answers := [], authorities := [], additionals := [] }
 
+/-- the guard of the ECS option in `packReq`: `r.opt.ecsEnabled && remoteAddr.IsValid()` (tied to the source by
+    translation) -/
+@[simp] def ecsGuard (ecsEnabled addrValid : Bool) : Bool := ecsEnabled && addrValid
+
 /-- `packReq`: RD, one question, one OPT (class udpSize) carrying ECS iff enabled and the address is valid. -/
 def reqMsg (env : Env) (q : Question) : Msg :=
-  let data := if env.ecs ∧ env.addr.isValid then (makeECS env.addr).getD [] else []
+  let data := if ecsGuard env.ecs env.addr.isValid then (makeECS env.addr).getD [] else []
   { hdr := { emptyHdr with rd := true }, questions := [q], answers := [], authorities := [],
     additionals := [newEDNS0 udpSize data] }
 
@@ -168,12 +182,16 @@ def findRule (qname : Name) : Nat → List Rule → Option (Nat × Rule)
   | _, [] => none
   | i, r :: rs => if r.applies qname then some (i, r) else findRule qname (i + 1) rs
 
+/-- `rejectRCode := matchedRule.reject; rejectRCode > 0`: the matched rule is a reject rule (tied to the source by
+    translation, `Lemmas/TranslatedC10.lean`) -/
+@[simp] def isReject (rejectRCode : Nat) : Bool := decide (rejectRCode > 0)
+
 /-- `handleReq` (cache absent). Returns the response, the matched rule index and the forwards. -/
 def handleReq (env : Env) (q : Question) : Msg × Nat × List (Nat × Bytes) :=
   match findRule q.name 0 env.rules with
   | none => (makeEmptyResp q rcodeRefused, 0, [])
   | some (i, r) =>
-    if r.reject > 0 then (makeEmptyResp q r.reject, i, [])
+    if isReject r.reject then (makeEmptyResp q r.reject, i, [])
     else match r.upstream with
       | none => (makeEmptyResp q rcodeRefused, i, [])
       | some u =>
